@@ -1127,7 +1127,7 @@ Proof.
   - subst pb. destruct (c_lsda_enc c); destruct (negb (c_fde_enc c =? 0)); destruct (c_sig c); reflexivity.
 Qed.
 
-Require GV.Proofs.CfiRdBase GV.Proofs.CfiRdEnt.
+Require GV.Proofs.CfiRdBase GV.Proofs.CfiRdEnt GV.Proofs.CfiRdIter GV.Proofs.CfiRdSafe.
 Module RdE := GV.Proofs.CfiRdEnt.
 
 Definition cie_sp (eh be : bool) (c : CfiWr.cie) : CfiSpec.sparams := CfiSpec.mksp eh be (c_asize c).
@@ -1838,4 +1838,276 @@ Proof.
       cbn [app]. replace (CfiSpec.blen [] <? 2 ^ 64) with true by reflexivity.
       eexists. unfold rd_lsda_of. rewrite Efl. reflexivity.
   - eexists. reflexivity.
+Qed.
+
+(* ---- the whole section under CfiRd's entry iterator ---- *)
+
+(* what the reader's CIE record must contain for the CIE c written at offset o as the bytes b *)
+Definition cie_seen (dbg : bool) (c : CfiWr.cie) (o : N) (b : list byte) (ci : CfiRd.cie) : Prop :=
+  CfiRd.ci_off ci = o /\ CfiRd.ci_fmt64 ci = c_fmt64 c /\ CfiRd.ci_ver ci = c_version c /\
+  CfiRd.ci_asz ci = c_asize c /\ CfiRd.ci_caf ci = c_caf c /\ CfiRd.ci_daf ci = c_daf c /\
+  CfiRd.ci_rar ci = c_ra c /\ CfiRd.ci_aug ci = rd_aug_of c /\
+  exists insns pad,
+    write_insns dbg (c_daf c) (c_insns c) = Ok insns /\ all_nop pad = true /\ len pad < c_asize c /\
+    CfiRd.win (CfiRd.ci_instr ci) = insns ++ pad /\
+    CfiRd.off (CfiRd.ci_instr ci) + len (insns ++ pad) = o + len b.
+
+(* and its FDE record *)
+Definition fde_seen (dbg be : bool) (c : CfiWr.cie) (f : CfiWr.fde) (o : N) (b : list byte) (ci : CfiRd.cie)
+           (fd : CfiRd.fde) : Prop :=
+  CfiRd.fd_off fd = o /\ CfiRd.fd_fmt64 fd = c_fmt64 c /\ CfiRd.fd_cie fd = ci /\
+  CfiRd.fd_init fd = addr_val (f_addr f) mod 2 ^ (8 * c_asize c) /\ CfiRd.fd_range fd = f_len f /\
+  CfiRd.fd_aug fd = (if has_augmentation c then Some (rd_lsda_of c f) else None) /\
+  exists insns pad,
+    write_fde_insns dbg be (c_caf c) (c_daf c) 0 (f_insns f) = Ok insns /\ all_nop pad = true /\ len pad < c_asize c /\
+    CfiRd.win (CfiRd.fd_instr fd) = insns ++ pad.
+
+Section Assembly.
+  Variables (dbg dbg' be eh : bool) (asz : N) (cies : list CfiWr.cie) (fdes : list (nat * CfiWr.fde)) (sec : list byte).
+  Let cfg := rd_cfg eh be asz.
+
+  (* a CIE tile already passed: where it sits in the section and what the reader makes of it *)
+  Definition placed_cie (idx : nat) (o : N) (ci : CfiRd.cie) : Prop :=
+    exists c b pre post,
+      nth_error cies idx = Some c /\ sec = pre ++ b ++ post /\ len pre = o /\
+      cie_seen dbg c o b ci /\
+      CfiRd.cie_from_offset dbg' cfg sec o = Ok ci /\
+      (exists cr, ci = RdE.exp_cie cfg cr o (CfiSpec.blen (RdE.cie_body cfg cr)) (RdE.tail_off cfg (c_fmt64 c) o) (rd_aug_of c) /\
+                  cr = cie_rec_of c (cie_data_pos eh be o c) (CfiRd.win (CfiRd.ci_instr ci)) /\
+                  RdE.exp_aug cfg cr (RdE.cie_dpos cfg cr (RdE.tail_off cfg (c_fmt64 c) o)) = Some (rd_aug_of c)).
+
+  Fixpoint reader_sees (pos : N) (placed : list (nat * N)) (chunks : list (CfaEncSpec.item * list byte))
+           (items : list CfiRd.item) : Prop :=
+    match chunks, items with
+    | [], [] => True
+    | (CfaEncSpec.ICie idx, b) :: r, CfiRd.ICie ci :: its =>
+        placed_cie idx pos ci /\ reader_sees (pos + len b) ((idx, pos) :: placed) r its
+    | (CfaEncSpec.IFde k, b) :: r, CfiRd.IFde p :: its =>
+        (exists idx f c coff ci fd,
+           nth_error fdes k = Some (idx, f) /\ nth_error cies idx = Some c /\ CfiWrProofs.lookup idx placed = Some coff /\
+           placed_cie idx coff ci /\
+           CfiRd.pf_off p = pos /\ CfiRd.pf_cie_off p = coff /\
+           CfiRd.fde_parse dbg' cfg sec p = Ok fd /\ fde_seen dbg be c f pos b ci fd)
+        /\ reader_sees (pos + len b) placed r its
+    | _, _ => False
+    end.
+End Assembly.
+
+Lemma enc_value_len fmt asz be v :
+  CfiSpec.fmt_valid fmt = true -> asz <= 8 -> v < 18446744073709551616 ->
+  (length (CfiSpec.enc_value fmt asz be v) <= 10)%nat.
+Proof.
+  intros Hf Ha Hv. unfold CfiSpec.enc_value.
+  destruct (fmt =? 0); [rewrite CfiRdBase.un_bytes_length; lia|].
+  destruct (fmt =? 1).
+  { pose proof (write_uleb128_enc v ltac:(change (2 ^ 64) with 18446744073709551616; exact Hv)) as E.
+    unfold write_uleb128 in E. apply write_uleb_fuel_len in E. exact E. }
+  destruct (fmt =? 2); [rewrite CfiRdBase.un_bytes_length; lia|].
+  destruct (fmt =? 3); [rewrite CfiRdBase.un_bytes_length; lia|].
+  destruct (fmt =? 4); [rewrite CfiRdBase.un_bytes_length; lia|].
+  destruct (fmt =? 9).
+  { rewrite s64_to_i64 by exact Hv.
+    pose proof (write_sleb128_enc (to_i64 v) (to_i64_range v)) as E.
+    unfold write_sleb128 in E. apply write_sleb_fuel_len in E. exact E. }
+  destruct (fmt =? 10); [rewrite CfiRdBase.un_bytes_length; lia|].
+  destruct (fmt =? 11); [rewrite CfiRdBase.un_bytes_length; lia|].
+  destruct (fmt =? 12); [rewrite CfiRdBase.un_bytes_length; lia|]. cbn; lia.
+Qed.
+
+Lemma ptr_raw_lt pos e a : a < 18446744073709551616 -> ptr_raw pos e a < 18446744073709551616.
+Proof. intros H. unfold ptr_raw. destruct (CfiWr.pe_application e =? 16); [apply wrap64_lt|exact H]. Qed.
+
+Lemma entries_loop_nil fuel dbg cfg o : fuel <> O ->
+  CfiRd.entries_loop fuel dbg cfg (CfiRd.mkrd o []) = Ok ([], None).
+Proof. destruct fuel as [|f]; [congruence|]. intros _. reflexivity. Qed.
+
+Lemma entries_loop_step f dbg cfg o (b rest : list byte) it :
+  (0 < length b)%nat ->
+  CfiRd.parse_cfi_entry dbg cfg (CfiRd.mkrd o (b ++ rest)) = Ok (Some it, CfiRd.mkrd (o + len b) rest) ->
+  CfiRd.entries_loop (S f) dbg cfg (CfiRd.mkrd o (b ++ rest)) =
+  (let* (l, e) := CfiRd.entries_loop f dbg cfg (CfiRd.mkrd (o + len b) rest) in Ok (it :: l, e)).
+Proof.
+  intros Hb Hp. rewrite CfiRdIter.entries_loop_S. unfold CfiRd.iter_fuel. cbn [CfiRd.win].
+  rewrite CfiRdSafe.iter_next_S. rewrite RdE.rd_is_empty_app by exact Hb. rewrite Hp. reflexivity.
+Qed.
+
+Lemma concat_cons_snd {A} (x : A * list byte) l : concat (map snd (x :: l)) = snd x ++ concat (map snd l).
+Proof. reflexivity. Qed.
+
+Lemma tiles_read dbg dbg' be eh asz cies fdes sec :
+  Forall (fun c => cie_wf c = true /\ c_asize c = asz) cies ->
+  Forall (fun p => fde_wf (snd p) = true) fdes ->
+  (forall idx c, In idx (map fst fdes) -> nth_error cies idx = Some c ->
+     (forall e, c_lsda_enc c = Some e -> enc_usable e) /\
+     (negb (c_fde_enc c =? 0) = true -> enc_usable (c_fde_enc c))) ->
+  len sec + 16 < 4294967295 ->
+  forall chunks done placed fuel,
+    sec = done ++ concat (map snd chunks) ->
+    well_tiled dbg be eh cies fdes (len done) placed chunks ->
+    (forall idx cb, In (CfaEncSpec.ICie idx, cb) chunks -> In idx (map fst fdes)) ->
+    (forall idx o, CfiWrProofs.lookup idx placed = Some o ->
+       o <= len done /\ exists ci, placed_cie dbg dbg' be eh asz cies sec idx o ci) ->
+    (length chunks < fuel)%nat ->
+    exists items,
+      CfiRd.entries_loop fuel dbg' (rd_cfg eh be asz) (CfiRd.mkrd (len done) (concat (map snd chunks))) = Ok (items, None) /\
+      reader_sees dbg dbg' be eh asz cies fdes sec (len done) placed chunks items.
+Proof.
+  intros HC HF HU Hsmall.
+  induction chunks as [|[it b] r IH]; intros done placed fuel Hsec Hwt Hin Hpl Hfuel.
+  - exists []. split; [apply entries_loop_nil; cbn [length] in Hfuel; lia|exact I].
+  - destruct fuel as [|fuel]; [cbn [length] in Hfuel; lia|]. cbn [length] in Hfuel.
+    rewrite concat_cons_snd in Hsec |- *. cbn [snd] in Hsec |- *.
+    assert (Hlen_sec : len sec = len done + len b + len (concat (map snd r))).
+    { rewrite Hsec, !len_app. lia. }
+    assert (Hsec' : sec = (done ++ b) ++ concat (map snd r)) by (rewrite Hsec, <- app_assoc; reflexivity).
+    assert (Hlen' : len (done ++ b) = len done + len b) by apply len_app.
+    destruct it as [idx|k]; cbn [well_tiled] in Hwt; destruct Hwt as [Hthis Hrest].
+    + (* a CIE tile *)
+      destruct Hthis as (c & Hn & Hw).
+      assert (Hcw : cie_wf c = true /\ c_asize c = asz).
+      { rewrite Forall_forall in HC. apply HC. eapply nth_error_In. exact Hn. }
+      destruct Hcw as [Hcw Hca].
+      assert (Hidx : In idx (map fst fdes)) by (eapply Hin; left; reflexivity).
+      destruct (HU idx c Hidx Hn) as [HL HR].
+      destruct (cie_tile_read dbg be eh (len done) c b Hcw ltac:(lia) Hw HL HR)
+        as (insns & pad & Hins & Hnop & Hpad & Hb & Hwfc & Hbf & Haug & Hparse).
+      subst asz.
+      set (cr := cie_rec_of c (cie_data_pos eh be (len done) c) (insns ++ pad)) in *.
+      set (cfg := rd_cfg eh be (c_asize c)) in *.
+      set (ci := RdE.exp_cie cfg cr (len done) (CfiSpec.blen (RdE.cie_body cfg cr))
+                             (RdE.tail_off cfg (c_fmt64 c) (len done)) (rd_aug_of c)) in *.
+      assert (Hbpos : (0 < length b)%nat) by (rewrite Hb; apply RdE.enc_cie_len).
+      rewrite (entries_loop_step fuel dbg' cfg (len done) b _ (CfiRd.ICie ci) Hbpos (Hparse dbg' _)).
+      (* the record just read *)
+      assert (Hplaced : placed_cie dbg dbg' be eh (c_asize c) cies sec idx (len done) ci).
+      { exists c, b, done, (concat (map snd r)). split; [exact Hn|]. split; [exact Hsec|]. split; [reflexivity|].
+        split.
+        - unfold cie_seen, ci, RdE.exp_cie. cbv zeta.
+          cbn [CfiRd.ci_off CfiRd.ci_fmt64 CfiRd.ci_ver CfiRd.ci_asz CfiRd.ci_caf CfiRd.ci_daf CfiRd.ci_rar CfiRd.ci_aug
+               CfiRd.ci_instr CfiRd.win CfiRd.off].
+          change (RdE.sp_of cfg) with (cie_sp eh be c).
+          repeat split; try reflexivity.
+          + unfold cr. apply cie_asz_sp.
+          + exists insns, pad. split; [exact Hins|]. split; [exact Hnop|]. split; [exact Hpad|].
+            split; [reflexivity|].
+            (* offsets: the instruction area ends where the entry ends *)
+            rewrite Hb. unfold CfiSpec.enc_cie. cbv zeta. change len with CfiRd.nlen.
+            rewrite RdE.cie_tail_split. rewrite !CfiRdBase.nlen_app, RdE.nlen_initial_length.
+            unfold cfg at 1. rewrite tail_off_cfg.
+            assert (Hid : CfiRd.nlen (CfiSpec.cie_id (RdE.sp_of cfg) (CfiSpec.c_fmt64 cr)) = id_size_of eh (c_fmt64 c)).
+            { unfold CfiSpec.cie_id, id_size_of, CfiRd.nlen. cbn [RdE.sp_of cfg rd_cfg CfiRd.sc_eh CfiRd.sc_be CfiSpec.s_eh CfiSpec.s_be].
+              change (CfiSpec.c_fmt64 cr) with (c_fmt64 c).
+              destruct eh; [|destruct (c_fmt64 c)]; rewrite CfiRdBase.un_bytes_length; reflexivity. }
+            rewrite Hid. change (CfiSpec.c_fmt64 cr) with (c_fmt64 c). change (CfiSpec.c_instr cr) with (insns ++ pad).
+            change (RdE.sp_of cfg) with (cie_sp eh be c). rewrite ?CfiRdBase.nlen_app.
+            destruct (c_fmt64 c); cbn [CfiSpec.len_field_size ilen_size]; lia.
+        - split.
+          + unfold ci. rewrite Hsec. rewrite Hb.
+            apply (RdE.cie_from_offset_enc dbg' cfg cr done (concat (map snd r)) (rd_aug_of c) Hwfc Hbf).
+            exact Haug.
+          + exists cr. split; [reflexivity|]. split; [|exact Haug].
+            unfold ci, RdE.exp_cie. cbn [CfiRd.ci_instr CfiRd.win]. reflexivity. }
+      destruct (IH (done ++ b) ((idx, len done) :: placed) fuel Hsec') as (items & Hloop & Hsees).
+      * rewrite Hlen'. exact Hrest.
+      * intros i cb Hi. eapply Hin. right. exact Hi.
+      * intros i o Hlk. cbn [CfiWrProofs.lookup] in Hlk. destruct (Nat.eqb i idx) eqn:Ei.
+        -- injection Hlk as <-. apply Nat.eqb_eq in Ei. subst i. split; [lia|]. exists ci. exact Hplaced.
+        -- destruct (Hpl i o Hlk) as [Ho Hex]. split; [lia|exact Hex].
+      * lia.
+      * rewrite Hlen' in Hloop, Hsees. rewrite Hloop. cbn [bind].
+        exists (CfiRd.ICie ci :: items). split; [reflexivity|]. cbn [reader_sees]. split; [exact Hplaced|exact Hsees].
+    + (* an FDE tile *)
+      destruct Hthis as (idx & f & c & coff & Hk & Hn & Hlk & Hw).
+      assert (Hcw : cie_wf c = true /\ c_asize c = asz).
+      { rewrite Forall_forall in HC. apply HC. eapply nth_error_In. exact Hn. }
+      destruct Hcw as [Hcw Hca].
+      assert (Hfw : fde_wf f = true).
+      { rewrite Forall_forall in HF. apply (HF (idx, f)). eapply nth_error_In. exact Hk. }
+      assert (Hidx : In idx (map fst fdes)).
+      { apply in_map_iff. exists (idx, f). split; [reflexivity|]. eapply nth_error_In. exact Hk. }
+      destruct (HU idx c Hidx Hn) as [HL HR].
+      destruct (Hpl idx coff Hlk) as [Hcoff (ci & Hpc)].
+      destruct (fde_write_enc dbg be eh (len done) coff c f b Hcw Hfw ltac:(lia) Hcoff Hw)
+        as (insns & pad & Hins & Hnop & Hpad & Henc & Hls & Hfenc & Hnofenc & Hlenc & Hconst & Hlconst & Hco & Hbfit).
+      pose proof Hpc as Hpc0.
+      destruct Hpc as (c' & cb & pre & post & Hn' & Hsecc & Hpre & Hseen & Hfrom & cr & Eci & Ecr & Haug).
+      rewrite Hn in Hn'. injection Hn' as <-.
+      subst asz.
+      set (cfg := rd_cfg eh be (c_asize c)) in *.
+      set (fr := fde_rec_of be eh (len done) c f idx (insns ++ pad)).
+      assert (Hb : b = CfiSpec.enc_fde (RdE.sp_of cfg) cr coff (len done) fr).
+      { rewrite Ecr. unfold fr. rewrite (Henc (cie_data_pos eh be coff c) (CfiRd.win (CfiRd.ci_instr ci)) idx).
+        reflexivity. }
+      assert (Hbf : RdE.body_fits (CfiSpec.f_fmt64 fr) (RdE.fde_body cfg cr coff (len done) fr)).
+      { unfold RdE.body_fits. rewrite Ecr. unfold fr. cbn [fde_rec_of CfiSpec.f_fmt64].
+        exact (Hbfit (cie_data_pos eh be coff c) (CfiRd.win (CfiRd.ci_instr ci)) idx). }
+      assert (Href : RdE.cie_ref_ok cfg (CfiSpec.f_fmt64 fr) (len done) coff).
+      { unfold RdE.cie_ref_ok. cbn [cfg rd_cfg CfiRd.sc_eh]. unfold fr. cbn [fde_rec_of CfiSpec.f_fmt64].
+        change (CfiSpec.len_field_size (c_fmt64 c)) with (ilen_size (c_fmt64 c)).
+        destruct eh.
+        - change (2 ^ 32) with 4294967296. destruct (c_fmt64 c); cbn [ilen_size] in *; lia.
+        - destruct (c_fmt64 c); [change (2 ^ 64 - 1) with 18446744073709551615|change (2 ^ 32 - 1) with 4294967295]; lia. }
+      assert (Hbpos : (0 < length b)%nat) by (rewrite Hb; apply RdE.enc_fde_len_pos).
+      pose proof (RdE.parse_cfi_entry_fde dbg' cfg cr coff (len done) fr (concat (map snd r)) Hbf Href) as Hparse.
+      rewrite <- Hb in Hparse. change (CfiSpec.blen b) with (len b) in Hparse.
+      set (p := CfiRd.mkpfde (len done) (CfiSpec.blen (RdE.fde_body cfg cr coff (len done) fr)) (CfiSpec.f_fmt64 fr) coff
+                             (CfiRd.mkrd (RdE.tail_off cfg (CfiSpec.f_fmt64 fr) (len done)) (CfiSpec.fde_tail (RdE.sp_of cfg) cr fr))) in *.
+      rewrite (entries_loop_step fuel dbg' cfg (len done) b _ (CfiRd.IFde p) Hbpos Hparse).
+      (* the complete parse of this FDE *)
+      assert (Hasz : c_asize c = 1 \/ c_asize c = 2 \/ c_asize c = 4 \/ c_asize c = 8).
+      { eapply fde_write_ok_asz. exact Hw. }
+      destruct Hconst as (va & Hva).
+      assert (Hva64 : va < 18446744073709551616).
+      { destruct (fde_wf_parts2 f Hfw) as (Hfa & _). rewrite Hva in Hfa. cbn [addr_wf] in Hfa. lia. }
+      assert (Hlpos : fde_lsda_pos be eh (len done) c f + 2 < 18446744073709551616).
+      { unfold fde_lsda_pos, fde_addr_pos.
+        assert (L1 : (length (CfiSpec.enc_value (fde_afmt c) (c_asize c) be (fde_init_raw eh (len done) c f)) <= 10)%nat).
+        { unfold fde_afmt. destruct (negb (c_fde_enc c =? 0)) eqn:Ef.
+          - destruct (Hfenc eq_refl) as (_ & Hfv & _). apply enc_value_len; [exact Hfv|lia|].
+            unfold fde_init_raw. rewrite Ef. apply ptr_raw_lt. rewrite Hva. exact Hva64.
+          - apply enc_value_len; [reflexivity|lia|]. unfold fde_init_raw. rewrite Ef, Hva. exact Hva64. }
+        assert (L2 : (length (CfiSpec.enc_value (fde_afmt c) (c_asize c) be (f_len f)) <= 10)%nat).
+        { destruct (fde_wf_parts2 f Hfw) as (_ & Hfl & _). apply is_u32_iff in Hfl.
+          unfold fde_afmt. destruct (negb (c_fde_enc c =? 0)) eqn:Ef.
+          - destruct (Hfenc eq_refl) as (_ & Hfv & _). apply enc_value_len; [exact Hfv|lia|lia].
+          - apply enc_value_len; [reflexivity|lia|lia]. }
+        unfold CfiRd.nlen. destruct eh, (c_fmt64 c); cbn [ilen_size id_size_of]; lia. }
+      destruct (exp_fde_written be eh (len done) c f (cie_data_pos eh be coff c) (CfiRd.win (CfiRd.ci_instr ci)) idx
+                  (insns ++ pad) ci (CfiSpec.blen (RdE.fde_body cfg cr coff (len done) fr)))
+        as (ioff & Hexp).
+      * exact Hasz.
+      * exact Hlpos.
+      * exact Hls.
+      * intros Ef. destruct (Hfenc Ef) as (_ & _ & Hf1 & Hf2). split; [exact (HR Ef)|]. split; assumption.
+      * exact Hnofenc.
+      * intros e He. destruct (Hlenc e He) as (_ & Hfv & Hfit). split; [exact (HL e He)|]. split; [exact Hfit|].
+        apply enc_value_len; [exact Hfv|lia|].
+        unfold fde_lsda_raw. destruct (f_lsda f) as [la|] eqn:Efl; [|lia]. rewrite He.
+        apply ptr_raw_lt. destruct (Hlconst la eq_refl) as (v & ->). cbn [addr_val].
+        destruct (fde_wf_parts2 f Hfw) as (_ & _ & Hfls). rewrite Efl in Hfls. cbn [addr_wf] in Hfls. lia.
+      * exists va. split; [exact Hva|exact Hva64].
+      * intros la Hla. destruct (Hlconst la Hla) as (v & ->). exists v. split; [reflexivity|].
+        destruct (fde_wf_parts2 f Hfw) as (_ & _ & Hfls). rewrite Hla in Hfls. cbn [addr_wf] in Hfls. lia.
+      * fold cfg in Hexp. rewrite <- Ecr in Hexp. fold fr in Hexp.
+        match type of Hexp with _ = Some ?X => set (fd := X) in * end.
+        assert (Hparse_fde : CfiRd.fde_parse dbg' cfg sec p = Ok fd).
+        { unfold p. apply (RdE.fde_body_enc dbg' cfg sec cr ci fr).
+          - change (RdE.sp_of cfg) with (cie_sp eh be c). rewrite Ecr, cie_asz_sp. exact Hasz.
+          - exact Hfrom.
+          - rewrite Eci. eapply RdE.exp_cie_links. exact Haug.
+          - unfold fr at 2. cbn [fde_rec_of CfiSpec.f_fmt64]. unfold cfg. rewrite tail_off_cfg.
+            unfold fde_addr_pos in Hexp. exact Hexp. }
+        destruct (IH (done ++ b) placed fuel Hsec') as (items & Hloop & Hsees).
+        -- rewrite Hlen'. exact Hrest.
+        -- intros i cbb Hi. eapply Hin. right. exact Hi.
+        -- intros i o Hl. destruct (Hpl i o Hl) as [Ho Hex]. split; [lia|exact Hex].
+        -- lia.
+        -- rewrite Hlen' in Hloop, Hsees. rewrite Hloop. cbn [bind].
+           exists (CfiRd.IFde p :: items). split; [reflexivity|]. cbn [reader_sees]. split; [|exact Hsees].
+           exists idx, f, c, coff, ci, fd. split; [exact Hk|]. split; [exact Hn|]. split; [exact Hlk|].
+           split; [exact Hpc0|]. split; [reflexivity|]. split; [reflexivity|]. split; [exact Hparse_fde|].
+           unfold fde_seen, fd. cbn [CfiRd.fd_off CfiRd.fd_fmt64 CfiRd.fd_cie CfiRd.fd_init CfiRd.fd_range CfiRd.fd_aug
+                                 CfiRd.fd_instr CfiRd.win].
+           repeat split; try reflexivity.
+           exists insns, pad. auto.
 Qed.
